@@ -1,4 +1,5 @@
 import LiquidVerif.Lemmas.AnalysisSim
+import LiquidVerif.Lemmas.AnalysisFirst
 import LiquidVerif.Gen.NodeExprCoverage
 /-!
 # C19 — static analysis reports everything a render can touch
@@ -84,6 +85,31 @@ theorem sound_of_hyp (ns : Nodes) (tmpl : Name) (h : Hyp ns tmpl) :
   intro e he
   exact (reported_iff _ _).1 (reach_reported_partial ns tmpl h e he)
 
+/-! ## Sentence 1 at full strength (partials reached any number of times) -/
+
+/-- Sentence 1 for one event: the looked-up reference is a reported variable, the filter / tag name is reported. -/
+def Reported1 (st : St) : Ev → Prop
+  | .get l _ => l ∈ st.vars
+  | .filt f => f ∈ st.filters
+  | .tag t => ∃ x ∈ st.tags, x.1 = t
+
+/-- **C19, first sentence, without the reached-once hypothesis**: for every tree in which each partial name
+stands for one template (`ConsNodes B`: the body of a partial node named `nm` is `B nm`, names are non-empty
+and no partial contains itself) and that does not include its own root, whatever the `seen` map skips or
+visits "globals only" — partials included or rendered several times, from any scopes, `include` below
+`render` — every lookup of any render is a reported variable reference and every applied filter and
+rendered tag is reported.  (Invariant: every name in `seen` is in progress or has its whole body recorded.) -/
+theorem analysis_reports_all (ns : Nodes) (tmpl : Name) (B : Name → Nodes) (hc : ConsNodes B ns)
+    (ht : tmpl ∉ partNamesNodes ns) (ch : List Bool) :
+    ∀ e ∈ render ns tmpl ch, Reported1 (analyze ns tmpl) e := by
+  intro e he
+  have h := visitNodes_first ns tmpl false St.init [tmpl] B hc
+    (by intro nm hnm hh; rw [List.mem_singleton.1 hnm] at hh; exact ht hh)
+    (fun _ => List.mem_singleton.2 rfl) (by intro p hp; simp [St.init] at hp) (fun hh => by cases hh)
+  have := reachNodes_sub_all (analyze ns tmpl) ns tmpl [] [] false h.recd e (renderNodes_sub ns tmpl [] [] false ch e he)
+  rw [evOk1_iff] at this
+  cases e <;> exact this
+
 /-! ## Stages (DESIGN §10): no partials, then `include`, then `render` -/
 
 mutual
@@ -166,6 +192,11 @@ theorem analysis_counterexample :
   intro h
   have hr : Ev.get ⟨"x", "p", 4⟩ false ∈ render ce1 "" (List.replicate 12 true) := by decide
   exact analysis_counterexample_partial_reached_twice.2.1 ((h ce1 "" _ _ hr).2 rfl)
+
+/-- The first counterexample tree (a partial reached twice) satisfies the hypotheses of
+`analysis_reports_all`: sentence 1 holds there although sentence 2 fails. -/
+example : ConsNodes (fun nm => if nm = "p" then one (out "x" 4) else .nil) ce1 := by
+  simp [ConsNodes, ConsNode, ce1, one, block, out, partNamesNodes, partNamesNode]
 
 /-! ## Tie of the dynamic model to the source (translator) -/
 
